@@ -155,6 +155,8 @@ func (fr *Frame) exec(st *State, pc Term, ins ssa.Instruction) bool {
 			e.fail("%s: FieldAddr on value kind %d", fr.key, x.K)
 		}
 	case *ssa.Field:
+		e.readInv = e.pure == 0
+		defer func() { e.readInv = false }()
 		xv := fr.get(st, ins.X)
 		x := e.toTerm(st, xv)
 		flab := labelOf(xv)
@@ -186,6 +188,8 @@ func (fr *Frame) exec(st *State, pc Term, ins ssa.Instruction) bool {
 	case *ssa.Slice:
 		fr.vals[ins] = fr.sliceOp(st, pc, ins)
 	case *ssa.Lookup:
+		e.readInv = e.pure == 0
+		defer func() { e.readInv = false }()
 		mv := fr.get(st, ins.X)
 		m := e.toTerm(st, mv)
 		k := e.toTerm(st, fr.get(st, ins.Index))
@@ -255,7 +259,9 @@ func (fr *Frame) exec(st *State, pc Term, ins ssa.Instruction) bool {
 	case *ssa.Convert:
 		fr.vals[ins] = fr.convert(st, pc, ins)
 	case *ssa.TypeAssert:
+		e.readInv = e.pure == 0
 		fr.typeAssert(st, pc, ins)
+		e.readInv = false
 	case *ssa.Extract:
 		t := fr.get(st, ins.Tuple)
 		if t.K != vTuple || ins.Index >= len(t.Tup) {
@@ -279,7 +285,9 @@ func (fr *Frame) exec(st *State, pc Term, ins ssa.Instruction) bool {
 		}
 		fr.vals[ins] = Val{K: vIter, Iter: it}
 	case *ssa.Next:
+		e.readInv = e.pure == 0
 		fr.next(st, pc, ins)
+		e.readInv = false
 	case *ssa.Call:
 		fr.vals[ins] = fr.call(st, pc, ins)
 	default:
@@ -318,7 +326,19 @@ func (fr *Frame) next(st *State, pc Term, ins *ssa.Next) {
 	e.assume(Implies(Not(ok), T(SBool, "(forall ((qk %s)) (=> %s %s))", d.Key, u.MHas(m, q).S, App(SBool, "select", vis, q).S)))
 	st.cell[it.visRoot] = termVal(e.name("vis", Ite(ok, App(vis.Sort, "store", vis, k, True), vis)))
 	v := e.wrap(st, u.MGet(m, k), labelOf(it.Map))
-	fr.vals[ins] = Val{K: vTuple, Tup: []Val{termVal(ok), termVal(k), v}}
+	kv := termVal(k)
+	if m.Sort == "MapYaml" {
+		kv = termVal(App(SAny, "ykey", m, k))
+		// element validity of yaml maps: validYaml(m) means every value is a valid native value
+		if vy, va := e.p.SpecFuncs["validYaml"], e.p.SpecFuncs["validAny"]; vy != nil && va != nil {
+			if a, err := e.specCall(st, vy, []Term{m}); err == nil {
+				if b, err := e.specCall(st, va, []Term{u.MGet(m, k)}); err == nil {
+					e.assume(Implies(And(ok, a), b))
+				}
+			}
+		}
+	}
+	fr.vals[ins] = Val{K: vTuple, Tup: []Val{termVal(ok), kv, v}}
 }
 
 func (fr *Frame) binop(st *State, pc Term, ins *ssa.BinOp) Val {
@@ -808,6 +828,8 @@ func (e *Exec) assertTo(st *State, x Term, t types.Type, lab string) (Term, Val,
 			if _, isNamed := t.(*types.Named); !isNamed {
 				return is("a_map", x), e.wrap(st, App("MapAny", "am", x), lab), true
 			}
+		case "MapYaml":
+			return is("a_ymap", x), e.wrap(st, App("MapYaml", "aym", x), lab), true
 		case SHash:
 			return is("a_hash", x), termVal(App(SHash, "ah", x)), true
 		}
